@@ -170,4 +170,30 @@ def labelScan : Bool → Bytes → Nat → Option Nat
 def findLabelEnd (line : Bytes) (pos : Nat) : Option Nat :=
   (labelScan false (line.drop pos) 0).map (fun k => pos + k)
 
+/-! ### appendReplacement's decision, with net/url as a parameter -/
+
+/-- the fields of `url.URL` that `appendReplacement` looks at (`rest`: everything else) -/
+structure Url where
+  scheme : Bytes
+  host : Bytes
+  path : Bytes
+  rest : Bytes
+
+/-- net/url and the path arithmetic, as parameters: `parse` is `url.Parse` (`none` = error),
+`str` is `(*URL).String`, `relocate` is the host / path rewriting of `appendReplacement`
+(base host, `path.Join` with the base path and the directory, `.html` → `.md`, …) -/
+structure UrlLib where
+  parse : Bytes → Option Url
+  str : Url → Bytes
+  relocate : Url → Url
+
+/-- `appendReplacement`: the text that replaces the destination `dest`, or `none` when the
+destination is left alone (parse error, absolute URL, only query and/or fragment) -/
+def appendDecision (L : UrlLib) (baseScheme : Bytes) (dest : Bytes) : Option Bytes :=
+  match L.parse (mdUnescape dest) with
+  | none => none
+  | some u =>
+    if !u.scheme.isEmpty || (u.host.isEmpty && u.path.isEmpty) then none
+    else some (urlEscape (L.str (L.relocate { u with scheme := baseScheme })))
+
 end ScriggoV.LinkDest
